@@ -232,7 +232,30 @@ def run_case(shape, states, rebases):
     from zope.interface import Interface
     check_all(ifaces, states, 'initial %r' % (shape,))
     cur = list(shape)
+
+    class Watcher:
+        """A dependent registered with the public I.subscribe(): while a change is being announced it asks the accessors of every
+        interface; whatever resolution order an interface has at that moment, its accessors must agree with it and with each other."""
+        busy = False
+
+        def __init__(self, k):
+            self.k = k
+
+        def changed(self, originally_changed):
+            if Watcher.busy:
+                return
+            Watcher.busy = True
+            try:
+                _check_all(ifaces, states, 'inside the change notification of I%d (history so far %r on %r)' % (self.k, done, shape))
+            finally:
+                Watcher.busy = False
+    done = []
+    watchers = [Watcher(k) for k in range(len(ifaces))]
+    if rebases:
+        for k, I in enumerate(ifaces):
+            I.subscribe(watchers[k])
     for (node, newbases) in rebases:
+        done.append((node, tuple(newbases)))
         ifaces[node].__bases__ = tuple(ifaces[j] for j in newbases) or (Interface,)
         cur[node] = tuple(newbases)
         check_all(ifaces, states, 'after %r: I%d.__bases__=%r' % (shape, node, newbases))
